@@ -5,6 +5,7 @@ Anything that does not parse prints `e BadOp` — the driver never defaults.
 -/
 import LnnVerif.Model.PropEngine
 import LnnVerif.Model.Fol
+import LnnVerif.Model.Store
 import Mathlib.Algebra.Order.Field.Rat
 
 open LNN
@@ -49,6 +50,7 @@ structure Ctx where
   leaves : List (Nat × Bounds Q) := []   -- asserted data (`set`), restored by `resetb`
   fnodes : List (Nat × FNode Nat Q) := []
   tabs : List (Nat × Table Q) := []
+  props : List Nat := []                 -- formulae without variables (single empty grounding)
 
 def defaultNode : Node Nat Q := { kind := .atom, bias := 1, alpha := 1 }
 
@@ -117,6 +119,25 @@ def sortRows (t : Table Q) : List (Row Q) := t.foldl (fun acc r => insertSorted 
 
 def showTab (i : Nat) (t : Table Q) : String :=
   s!"{i}:" ++ ";".intercalate ((sortRows t).map fun r => s!"{showGr r.g}={showB r.b}")
+
+/-- value tokens: `F:TRUE` `B:1` `N:3/2` `T:1/2,3/4` (`T:` = empty tuple) `O` -/
+def parseVal (s : String) : Option (Val Q) :=
+  match s.splitOn ":" with
+  | ["O"] => some .other
+  | ["F", "TRUE"] => some (.fact .true_) | ["F", "FALSE"] => some (.fact .false_)
+  | ["F", "UNKNOWN"] => some (.fact .unknown) | ["F", "CONTRADICTION"] => some (.fact .contradiction)
+  | ["B", "1"] => some (.bool true) | ["B", "0"] => some (.bool false)
+  | ["N", x] => (parseRat x).map .num
+  | ["T", xs] => if xs = "" then some (.tuple []) else ((xs.splitOn ",").mapM parseRat).map .tuple
+  | _ => none
+
+/-- `g=val;g=val` -/
+def parseEntries (s : String) : Option (List (Gr × Val Q)) :=
+  if s = "-" ∨ s = "" then some [] else
+    (s.splitOn ";").mapM fun t =>
+      match t.splitOn "=" with
+      | [g, v] => do some (← parseGr g, ← parseVal v)
+      | _ => none
 
 def kvs (toks : List String) (key : String) : Option String :=
   toks.findSome? fun t =>
@@ -207,7 +228,8 @@ def step (c : Ctx) (line : String) : Ctx × String :=
       -- a formula without variables (fully quantified) holds the single empty grounding
       let t0 : Table Q := if prop != 0 then [⟨[], w, w⟩] else []
       ({ c with fnodes := c.fnodes.filter (·.1 != i) ++ [(i, n)],
-                tabs := c.tabs.filter (·.1 != i) ++ [(i, t0)] }, "ok")
+                tabs := c.tabs.filter (·.1 != i) ++ [(i, t0)],
+                props := if prop != 0 then i :: c.props else c.props.filter (· != i) }, "ok")
     | _, _, _, _, _, _, _, _, _, _, _, _ => bad
   | ["fact", id, g, l, u] =>
     match id.toNat?, parseGr g, parseRat l, parseRat u with
@@ -250,6 +272,42 @@ def step (c : Ctx) (line : String) : Ctx × String :=
     match parseIds ids with
     | some l => (c, s!"c {if fHasContra c.fkb l c.fstate then 1 else 0}")
     | none => bad
+  | ["sadd", id, mode, arg] =>
+    -- `Model.add_data({formula: arg})`; id `-` = the key is not a Formula, unknown id = not in the model
+    if id = "-" then (c, "e TypeError") else
+    match id.toNat? with
+    | none => bad
+    | some i =>
+      if !(c.fnodes.any (·.1 == i)) then (c, "e Exception") else
+      let darg : Option (DataArg Q) :=
+        if mode = "single" then (parseVal arg).map .single
+        else if mode = "dict" then (parseEntries arg).map .perGrounding else none
+      match darg with
+      | none => bad
+      | some d =>
+        let s := c.fstate
+        match addDataChecked (c.props.contains i) (c.fkb i).world (s.get i) d with
+        | .ok t => (c.setFState (s.set i t), "ok")
+        | .error e => (c, "e " ++ e.toString)
+  | ["fflush"] =>
+    let s := c.fstate
+    (c.setFState ⟨s.tabs.map fun p => (p.1, flushTable (c.props.contains p.1) p.2)⟩, "ok")
+  | ["fworld", id, w] =>
+    match id.toNat?, parseB w with
+    | some i, some w =>
+      match c.fnodes.find? (·.1 == i) with
+      | none => bad
+      | some p =>
+        let n := { p.2 with world := w }
+        let s := c.fstate
+        let c' := { c with fnodes := c.fnodes.map fun (q : Nat × FNode Nat Q) => if q.1 == i then (i, n) else q }
+        (c'.setFState (s.set i (resetWorldTable (c.props.contains i) w (s.get i))), "ok")
+    | _, _ => bad
+  | ["fstate", id, g] =>
+    match id.toNat?, parseGr g with
+    | some i, some g =>
+      (c, s!"s {(state (c.fkb i).alpha (Table.getD (c.fkb i).world (c.fstate.get i) g)).toString}")
+    | _, _ => bad
   | ["fresetb"] =>
     let s := c.fstate
     (c.setFState ⟨s.tabs.map fun p => (p.1, p.2.resetBounds)⟩, "ok")
